@@ -1905,6 +1905,8 @@ class Rule(metaclass=LogicalType):
                         f"prefixItems required prefix: [{i}] not provided", item=i
                     )
                 )
+                # the absence is recorded (collect_errors): there is no item to convert
+                continue
 
             with context.enter(route=i) as arg_context:
                 try:
